@@ -30,7 +30,7 @@ m = {
         "guard": "verif",
         "enable": "-tags verif (comment-only contract files contracts_verif.go and cli/contracts_verif.go; read by govc, no executable code)",
         "baseline_off_cmd": "cd /repo && go test -vet=off -count=1 ./...",
-        "source_commits": src.get("hook_commits", []),
+        "source_commits": __import__('subprocess').run(['git','-C','/repo','log','--format=%H','--grep=^verif hook'],capture_output=True,text=True).stdout.split(),
         "add_only": True,
     },
     "engines": [{"name": "govc", "path": "/verif/engine", "serves_properties": sorted(claimed),
